@@ -9,5 +9,5 @@ git -C "$W/repo" apply "$PATCH" || { echo "PATCH-DOES-NOT-APPLY"; exit 3; }
 cd /verif && VERIF_REPO="$W/repo" ./check "$P" --tier "$TIER" > "$W/out.txt" 2>&1
 rc=$?
 echo "== $P $(basename $(dirname $PATCH))/$(basename $PATCH) tier=$TIER rc=$rc"
-grep -m3 'VIOLATION\|MACHINERY\|^OK' "$W/out.txt" | cut -c1-200
+grep -m4 "VIOLATION\|MACHINERY\|^OK\|rejected by" "$W/out.txt" | cut -c1-330
 exit $rc
